@@ -161,6 +161,22 @@ def pow(x, y):
   return _m.pow(x, y)
 
 
+def ceil(x):
+  if hasattr(x, "sym_ceil"):
+    return x.sym_ceil()
+  if _is_proxy(x):
+    raise HarnessError("math.ceil applied to a symbolic value is not modelled in this algebra")
+  return _m.ceil(x)
+
+
+def floor(x):
+  if hasattr(x, "sym_floor"):
+    return x.sym_floor()
+  if _is_proxy(x):
+    raise HarnessError("math.floor applied to a symbolic value is not modelled in this algebra")
+  return _m.floor(x)
+
+
 def fabs(x):
   if _is_proxy(x):
     return abs(x)
